@@ -611,7 +611,10 @@ class Exec:
                 self.oblige(f"index", "index", st, z3.And(0 <= j, j < base.n), node)
             return self.world.wrap_elem(self, base, base.arr[j], st)
         if isinstance(base, MapV):
-            v = base.arr[zint(idx)]
+            k_ = zint(idx)
+            if not (is_z3(k_) and z3.is_int(k_)):
+                raise Unsupported(f"map indexed by {idx!r} at line {getattr(node, 'lineno', '?')}")
+            v = base.arr[k_]
             return MapV(v) if z3.is_array(v) else v
         if isinstance(base, DictIntV):
             k_ = zint(idx)
